@@ -12,7 +12,7 @@ META = {
              'raised or warned.'),
     'exhaustive_part': 'story-level grid up to the stated bounds (quick n<=4, thorough n<=5); fuzz part is sampled',
     'workers': {'quick': 12, 'thorough': 16},
-    'watchdog': {'quick': 300, 'thorough': 1800},
+    'watchdog': {'quick': 600, 'thorough': 3600},
     'assumptions': ['running orders with duplicate story IDs are outside the order claim (conservation still checked)'],
 }
 
